@@ -308,6 +308,31 @@ func runC16(t *testing.T, c *choice.Stream, r *Result, opt RunOpt) {
 			cs.Type, cs.RT = nt, nrt
 			mutated = true
 			r.Fire("reinfer")
+			if c.Bool("reinfer.decode", 1, 2) {
+				// ... and the block of that definition is decoded right away: the column
+				// has been reset, whether before or after it learnt the type
+				k := c.Range("reinfer.decode.rows", 1, 5)
+				vals := gen.Values(vr, cs.RT, k)
+				var w refproto.W
+				if err := refproto.EncodeData(&w, cs.RT, vals); err != nil {
+					panic(err)
+				}
+				names = append(names, fmt.Sprintf("decode(%d)", k))
+				if err := col.DecodeColumn(proto.NewReader(&simio.FaultyReader{Data: w.B}), k); err != nil {
+					fail("decode-failed", "decode-after-reinfer", "DecodeColumn of valid data after Reset and Infer(%q): %v", nt, err)
+					break
+				}
+				got, err := gen.ReadAll(col, cs.RT, col.Rows())
+				if err != nil {
+					panic(err)
+				}
+				if col.Rows() != k || !reflect.DeepEqual(got, vals) {
+					fail("decode-mismatch", "decode-after-reinfer", "after Reset and Infer(%q), decoding %d rows gives %d rows:\n got %.300s\nwant %.300s", nt, k, col.Rows(), fmtVals(got), fmtVals(vals))
+					break
+				}
+				model = append([]any(nil), vals...)
+				observed++
+			}
 		case "infer":
 			names = append(names, "infer")
 			if inf, ok := col.(proto.Inferable); ok {
